@@ -72,6 +72,8 @@ struct TestParser : public KeyParser {
   std::vector<int> vec{ 0, 0, 0 };
   std::vector<std::vector<int>> vlist;
   int en = 0;
+  std::vector<std::string> sl{ "x" }, sl2;
+  std::vector<double> dl{ 0.5 };
   ASCIIlist_type envals;
   TestParser() {
     vlist.resize(2);
@@ -85,6 +87,9 @@ struct TestParser : public KeyParser {
     add_vectorised_key("vec key", &vec);
     add_vectorised_key("vlist key", &vlist);
     add_key("enum key", &en, &envals);
+    add_key("slist key", &sl);
+    add_key("slist2 key", &sl2);
+    add_key("dlist key", &dl);
     ignore_key("ignored key");
     add_alias_key("scalar int", "old int", false);   // plain alias (alias_map)
     add_alias_key("vec key", "old vec", true);       // deprecated alias (deprecated_alias_map)
@@ -94,7 +99,9 @@ struct TestParser : public KeyParser {
     std::string v = "{\"i\":" + std::to_string(i) + ",\"s\":" + c17::jstr(s) + ",\"flag\":" + (flag ? "true" : "false") + ",\"list\":" + c17::jints(list)
                     + ",\"vec\":" + c17::jints(vec) + ",\"vlist\":[";
     for (size_t k = 0; k < vlist.size(); ++k) { if (k) v += ','; v += c17::jints(vlist[k]); }
-    return v + "],\"en\":" + std::to_string(en) + "}";
+    std::vector<std::string> dls;
+    for (double d : dl) { std::ostringstream o; o << d; dls.push_back(o.str()); }
+    return v + "],\"en\":" + std::to_string(en) + ",\"sl\":" + c17::jarr(sl) + ",\"sl2\":" + c17::jarr(sl2) + ",\"dl\":" + c17::jarr(dls) + "}";
   }
 };
 
@@ -108,8 +115,9 @@ static int replay(const std::string& genpath, const std::string& outpath) {
   auto text_of = [&](long k) {
     std::vector<std::string> lines = c17::json_string_array(gen[k], "text");
     const bool nl = c17::json_bool(gen[k], "nl");
+    const std::string eol = c17::json_bool(gen[k], "crlf") ? "\r\n" : "\n";     // line ends are a dimension of the generated text
     std::string t;
-    for (size_t j = 0; j < lines.size(); ++j) { t += lines[j]; if (j + 1 < lines.size() || nl) t += '\n'; }
+    for (size_t j = 0; j < lines.size(); ++j) { t += lines[j]; if (j + 1 < lines.size() || nl) t += eol; }
     return t;
   };
   auto item = [&](long k) {
